@@ -201,7 +201,11 @@ func (c *ctl) ackAttempt(t *rapid.T) {
 	if variant == "genuine" && !wasAcked {
 		c.allowedRemoval[comKey(p.T)] = true
 	}
+	moodyUnfunded := p.CallbackAddr == w.Moody && !w.MoodyFunded(p.SrcIdx)
 	o := w.DeliverDumped(p.SrcIdx, rel, msg)
+	if variant == "genuine" && !wasAcked && moodyUnfunded {
+		m.R.Label(fmt.Sprintf("genuine_first_ack_while_the_sender_callback_reverts:accepted=%v", o.Res.OK()))
+	}
 	c.attempts[p.T] = append(c.attempts[p.T], variant+fmt.Sprintf("/ok=%v", o.Res.OK()))
 	switch {
 	case variant != "genuine" || wasAcked:
@@ -275,7 +279,16 @@ func (c *ctl) ackAttempt(t *rapid.T) {
 			m.Failf("refused genuine acknowledgement for %s changed state:\n%s", p.T, o.DiffString())
 		}
 		delete(c.allowedRemoval, comKey(p.T))
+		p.AckTried = true
 		m.R.Label("ack_genuine_refused")
+		switch lg := o.Res.Log; {
+		case strings.Contains(lg, "relayer"):
+			m.R.Label("ack_genuine_refused:relayer_address_not_registered")
+		case strings.Contains(lg, "OnAcknowledgePacket") || strings.Contains(lg, "revert"):
+			m.R.Label("ack_genuine_refused:sender_side_processing_reverted")
+		default:
+			m.R.Label("ack_genuine_refused:other")
+		}
 		m.Log("ack", fmt.Sprintf("%s genuine", p.T), "refused: "+bridge.Short(o.Res.Log))
 	}
 	okN, n := 0, len(c.attempts[p.T])
